@@ -143,7 +143,7 @@ impl<W: 'static, R: 'static, T: 'static> XGenerator<W, R, T> {
             Self::FromSequence(seq) => either_b(to_native!(seq, XSequence<W, R, T>).iter(ns, rt)),
             Self::SuccessorsUntil(initial_state, func) => either_c({
                 let fun = to_primitive!(func, Function);
-                iter::successors(Some(Ok(Ok(initial_state.clone()))), move |prev| {
+                let succ = move |prev: &XResult<Rc<ManagedXValue<W, R, T>>, W, R, T>| {
                     let Ok(prev) = prev else { return Some(prev.clone()); };
                     match ns.eval_func_with_values(fun, vec![prev.clone()], rt.clone(), false) {
                         Ok(g) => {
@@ -154,6 +154,24 @@ impl<W: 'static, R: 'static, T: 'static> XGenerator<W, R, T> {
                         }
                         Err(violation) => Some(Err(violation)),
                     }
+                };
+                // each element is computed when it is requested (iter::successors computes one
+                // element ahead: a call nobody asked for, whose violation nobody sees)
+                let mut last = None;
+                let mut done = false;
+                iter::from_fn(move || {
+                    if done {
+                        return None;
+                    }
+                    let next = match &last {
+                        None => Some(Ok(Ok(initial_state.clone()))),
+                        Some(prev) => succ(prev),
+                    };
+                    match &next {
+                        None => done = true,
+                        Some(item) => last = Some(item.clone()),
+                    }
+                    next
                 })
             }),
             Self::Map(gen, func) => either_d({
